@@ -247,6 +247,11 @@ def make_hook(repo: Repo, depth: int = 0):
 
 class _F(Folder):
     def binop(self, op, a, b):
+        if op in (ast.Add, ast.Sub) and isinstance(a, Diag) and a.kind == "arange" and isinstance(b, Poly):
+            sh = b if op is ast.Add else -b
+            return Diag("arange", (a.params[0] + sh, a.params[1] + sh))
+        if op is ast.Add and isinstance(b, Diag) and b.kind == "arange" and isinstance(a, Poly):
+            return Diag("arange", (b.params[0] + a, b.params[1] + a))
         # arange * scalar -> Diag('arange-times')
         if op is ast.Mult and (isinstance(a, Diag) or isinstance(b, Diag)):
             d, p = (a, b) if isinstance(a, Diag) else (b, a)
